@@ -257,7 +257,21 @@ def check_earliest(run, rule):
                 shape_ok = True
             else:
                 why = "condition is %s" % show_f(d)
-        before = all(order[id(node)] < order[id(c)] for c, _ in stores)
+        # what has to come before the store is the *test* (it asks whether the containers are still empty); the assignment itself
+        # may follow the store when the test's outcome was put into a local in front of it
+        test_at = order[id(node)]
+        for n_, ps_ in ir.walk_with_parents(f["body"]):
+            if n_ is node:
+                for p_ in reversed(ps_):
+                    if isinstance(p_, dict) and p_.get("k") == "If":
+                        cu_ = ir.unwrap_all_casts(p_.get("cond"))
+                        if isinstance(cu_, dict) and cu_.get("k") == "Ref" and cu_.get("d") == "local":
+                            for d_ in ir.walk(f["body"]):
+                                if d_.get("k") == "Decl" and any(v_.get("id") == cu_.get("id") and v_.get("n") == cu_.get("n") and v_.get("init") is not None
+                                                                  for v_ in d_.get("vars", [])):
+                                    test_at = min(test_at, order[id(d_)])
+                        break
+        before = all(test_at < order[id(c)] for c, _ in stores)
         ok = src_ok and present_ok and shape_ok and before
         run.ob(rule, tag + ":earliest-update", ok, f, node.get("l", 0),
                "earliest_time is lowered to the record's time when it is the first timed item or earlier, before the record is stored" if ok else
